@@ -202,3 +202,337 @@ def kill_points_purge(repo, max_ops=40):
             k += 1
     return {'confirmed': bool(problems), 'problems': problems[:10],
             'kill_points_explored': explored}
+
+
+# ---------------------------------------------------------------------------
+# trash-put batteries
+# ---------------------------------------------------------------------------
+def _build_work(sb):
+    work = sb.path('work')
+    os.makedirs(os.path.join(work, 'd', 'sub'))
+    open(os.path.join(work, 'f'), 'w').write('content of f')
+    open(os.path.join(work, 'empty'), 'w').close()
+    open(os.path.join(work, 'd', 'sub', 'inner'), 'w').write('inner')
+    os.symlink('../f', os.path.join(work, 'd', 'rel-link'))
+    os.makedirs(os.path.join(work, 'target', 'deep'))
+    open(os.path.join(work, 'target', 'deep', 'x'), 'w').write('x')
+    os.symlink('f', os.path.join(work, 'lf'))
+    os.symlink('target', os.path.join(work, 'ld'))
+    os.symlink('/nonexistent/zz', os.path.join(work, 'dl'))
+    open(os.path.join(work, 'name with spaces'), 'w').write('s')
+    open(os.path.join(work, '-dash'), 'w').write('s')
+    open(os.path.join(work, 'per%cent+plus'), 'w').write('s')
+    return work
+
+
+SPELLINGS = [
+    # (argument, entry it names relative to work or None when it must be refused)
+    ('f', 'f'), ('./f', 'f'), ('d/../f', 'f'), ('empty', 'empty'),
+    ('d', 'd'), ('d/', 'd'), ('d//', 'd'), ('./d/', 'd'),
+    ('lf', 'lf'), ('ld', 'ld'), ('ld/', 'ld'), ('ld//', 'ld'), ('dl', 'dl'),
+    ('d/sub/inner', 'd/sub/inner'), ('ld/deep', 'target/deep'),
+    ('name with spaces', 'name with spaces'), ('./-dash', '-dash'),
+    ('per%cent+plus', 'per%cent+plus'),
+    ('.', None), ('..', None), ('./', None), ('../', None), ('d/.', None),
+    ('d/./', None), ('d/..', None), ('d/sub/../..', None), ('missing', None),
+]
+
+
+def _judge_put(before, after, entry, exit_code, label):
+    """C01 on one run: before/after are snapshots of the sandbox"""
+    problems = []
+    t_new = sorted(k for k in after if k.startswith('T/') and k not in before)
+    work_changed = sorted(k for k in set(before) | set(after)
+                          if k.startswith('work/') and before.get(k) != after.get(k))
+    infos = [k for k in t_new if k.startswith('T/info/') and k.endswith('.trashinfo')]
+    tops = [k for k in t_new if k.startswith('T/files/') and k.count('/') == 2]
+    if exit_code == 0 and entry is not None:
+        if len(infos) != 1 or len(tops) != 1:
+            problems.append('%s: exit 0 but %d info / %d payload' % (label, len(infos), len(tops)))
+        else:
+            name = tops[0][len('T/files/'):]
+            if infos[0] != 'T/info/%s.trashinfo' % name:
+                problems.append('%s: info and payload names differ' % label)
+            sub_before = dict((k[len('work/' + entry):], v) for k, v in before.items()
+                              if k == 'work/' + entry or k.startswith('work/' + entry + '/'))
+            sub_after = dict((k[len(tops[0]):], v) for k, v in after.items()
+                             if k == tops[0] or k.startswith(tops[0] + '/'))
+            if sub_before != sub_after:
+                problems.append('%s: payload differs from the original entry' % label)
+            gone = [k for k in after if k == 'work/' + entry or k.startswith('work/' + entry + '/')]
+            if gone:
+                problems.append('%s: exit 0 but the entry is still in place' % label)
+            others = [k for k in work_changed if not (
+                k == 'work/' + entry or k.startswith('work/' + entry + '/'))]
+            if others:
+                problems.append('%s: other entries changed: %r' % (label, others[:3]))
+    else:
+        if work_changed:
+            problems.append('%s: exit %r but the work tree changed: %r' % (
+                label, exit_code, work_changed[:4]))
+        stray = [k for k in t_new if k not in ('T/files', 'T/info')]
+        if stray:
+            problems.append('%s: exit %r but the trash gained %r' % (
+                label, exit_code, stray[:4]))
+        if exit_code == 0 and entry is None and 'missing' not in label:
+            problems.append('%s: refused entry but exit 0' % label)
+    return problems
+
+
+def put_spellings_battery(repo, spellings=None, extra_args=()):
+    problems = []
+    for arg, entry in (spellings or SPELLINGS):
+        with Sandbox(repo) as sb:
+            work = _build_work(sb)
+            td = sb.path('T')
+            os.makedirs(td)
+            before = sb.snapshot()
+            run = sb.run('trash-put', list(extra_args) + ['--trash-dir', td, '--', arg],
+                         cwd=work)
+            after = sb.snapshot()
+            problems += _judge_put(before, after, entry, run['exit'],
+                                   'trash-put %s' % arg)
+            if 'Traceback' in run['stderr']:
+                problems.append('trash-put %s: traceback' % arg)
+    return {'confirmed': bool(problems), 'problems': problems[:12]}
+
+
+FAULTS = [('open', 13), ('open', 28), ('open', 30), ('open', 36), ('write', 28),
+          ('write', 5), ('close', 5), ('rename', 16), ('rename', 13), ('rename', 18),
+          ('rename', 22), ('makedirs', 13), ('makedirs', 30), ('mkdir', 13),
+          ('remove', 13), ('unlink', 13)]
+
+
+def put_faults_battery(repo, faults=None):
+    """C17: a persistent errno on one primitive: terminates, honest exit,
+    C01 final state"""
+    problems = []
+    for op, en in (faults or FAULTS):
+        for arg, entry in (('f', 'f'), ('d', 'd'), ('ld/', 'ld')):
+            with Sandbox(repo) as sb:
+                work = _build_work(sb)
+                td = sb.path('T')
+                os.makedirs(td)
+                before = sb.snapshot()
+                run = sb.run_faulty('trash-put', ['--trash-dir', td, '--', arg],
+                                    {'fail_op': {op: en}}, cwd=work, timeout=25)
+                after = sb.snapshot()
+                after.pop('faultlog.json', None)
+                label = 'trash-put %s with %s->errno %d' % (arg, op, en)
+                if run['exit'] is None:
+                    problems.append('%s: did not terminate within 25 s' % label)
+                    continue
+                problems += _judge_put(before, after, entry, run['exit'], label)
+                if 'Traceback' in run['stderr']:
+                    problems.append('%s: traceback' % label)
+    return {'confirmed': bool(problems), 'problems': problems[:12]}
+
+
+def put_kill_battery(repo, max_ops=25):
+    """C05: kill at every mutating operation"""
+    problems = []
+    explored = 0
+    for arg, entry in (('f', 'f'), ('d', 'd'), ('lf', 'lf')):
+        for first_use in (True, False):
+            k = 1
+            while k <= max_ops:
+                with Sandbox(repo) as sb:
+                    work = _build_work(sb)
+                    td = sb.path('T')
+                    if not first_use:
+                        sb.add_entry(td, entry.split('/')[-1])   # name collision
+                    before = sb.snapshot()
+                    run = sb.run_faulty('trash-put', ['--trash-dir', td, '--', arg],
+                                        {'kill_at': k}, cwd=work)
+                    after = sb.snapshot()
+                    explored += 1
+                    label = 'trash-put %s killed at op %d (first use %s)' % (arg, k, first_use)
+                    src = dict((kk, v) for kk, v in after.items()
+                               if kk == 'work/' + entry or kk.startswith('work/' + entry + '/'))
+                    src0 = dict((kk, v) for kk, v in before.items()
+                                if kk == 'work/' + entry or kk.startswith('work/' + entry + '/'))
+                    new_tops = [kk for kk in after if kk.startswith('T/files/') and
+                                kk.count('/') == 2 and kk not in before]
+                    complete_src = src == src0
+                    complete_trash = False
+                    for t in new_tops:
+                        sub = dict((kk[len(t):], v) for kk, v in after.items()
+                                   if kk == t or kk.startswith(t + '/'))
+                        if sub == dict((kk[len('work/' + entry):], v) for kk, v in src0.items()):
+                            complete_trash = True
+                        info = 'T/info/%s.trashinfo' % t[len('T/files/'):]
+                        if info not in after:
+                            problems.append('%s: payload %s without info' % (label, t))
+                        else:
+                            txt = open(os.path.join(sb.root, info), 'rb').read() \
+                                if os.path.exists(os.path.join(sb.root, info)) else b''
+                    if not (complete_src or complete_trash):
+                        problems.append('%s: entry neither complete in place nor in trash' % label)
+                    if complete_src and complete_trash:
+                        problems.append('%s: entry in both places' % label)
+                    if run['exit'] != 99:
+                        break
+                k += 1
+    return {'confirmed': bool(problems), 'problems': problems[:12],
+            'kill_points_explored': explored}
+
+
+def put_args_battery(repo):
+    """C16: exit status and independence of arguments"""
+    problems = []
+    lists = [['f', 'missing', 'empty'], ['missing', 'f'], ['.', 'f', '..', 'empty'],
+             ['f', 'f'], ['f', 'bad\udcff', 'empty'], ['bad\udcff'],
+             ['f', 'd', 'lf', 'dl'], ['missing1', 'missing2']]
+    for args in lists:
+        for opts in ([], ['-f'], ['-v']):
+            with Sandbox(repo) as sb:
+                work = _build_work(sb)
+                open(os.fsencode(os.path.join(work, 'bad\udcff')), 'w').write('b')
+                td = sb.path('T')
+                os.makedirs(td)
+                before = sb.snapshot()
+                run = sb.run('trash-put', opts + ['--trash-dir', td, '--'] + args,
+                             cwd=work)
+                after = sb.snapshot()
+                label = 'trash-put %s %r' % (' '.join(opts), args)
+                if 'Traceback' in run['stderr']:
+                    problems.append('%s: traceback' % label)
+                seen = set()
+                any_fail = False
+                for a in args:
+                    exists0 = ('work/' + a) in before and a not in seen
+                    dot = a in ('.', '..')
+                    gone = ('work/' + a) not in after
+                    if exists0 and not dot:
+                        if not gone:
+                            # un-encodable names may fail, but must be reported
+                            any_fail = True
+                            if a.encode('utf-8', 'surrogateescape').decode(
+                                    'utf-8', 'replace') == a and a != 'bad\udcff':
+                                problems.append('%s: %s not trashed' % (label, a))
+                    else:
+                        if dot or '-f' not in opts:
+                            any_fail = True
+                    seen.add(a)
+                if (run['exit'] == 0) == any_fail:
+                    problems.append('%s: exit %r but failures expected=%s' % (
+                        label, run['exit'], any_fail))
+    return {'confirmed': bool(problems), 'problems': problems[:12]}
+
+
+def put_concurrency_battery(repo, n=6, rounds=3):
+    """C04: n concurrent trash-puts of same-named entries into one trash"""
+    import subprocess
+    from pyvc.scenario import REAL_PYTHON
+    problems = []
+    for r in range(rounds):
+        with Sandbox(repo) as sb:
+            td = sb.path('T')       # created concurrently by the processes
+            procs = []
+            for i in range(n):
+                d = sb.path('w%d' % i)
+                os.makedirs(d)
+                if i % 3 == 2:
+                    os.makedirs(os.path.join(d, 'same'))
+                    open(os.path.join(d, 'same', 'id'), 'w').write('dir %d' % i)
+                else:
+                    open(os.path.join(d, 'same'), 'w').write('file %d' % i)
+            env = {'PATH': os.environ.get('PATH', ''), 'HOME': sb.home,
+                   'PYTHONPATH': repo, 'LANG': 'C.UTF-8'}
+            for i in range(n):
+                procs.append(subprocess.Popen(
+                    [REAL_PYTHON, os.path.join(repo, 'trash-put'), '--trash-dir',
+                     td, 'same'], cwd=sb.path('w%d' % i), env=env,
+                    stdout=subprocess.PIPE, stderr=subprocess.PIPE))
+            codes = [p.wait() for p in procs]
+            snap = sb.snapshot(td)
+            tops = sorted(k for k in snap if k.startswith('files/') and k.count('/') == 1)
+            infos = sorted(k for k in snap if k.startswith('info/'))
+            ok = sum(1 for c in codes if c == 0)
+            if len(tops) != ok or len(infos) != ok:
+                problems.append('round %d: %d successes but %d payloads / %d infos'
+                                % (r, ok, len(tops), len(infos)))
+            for t in tops:
+                if 'info/%s.trashinfo' % t[len('files/'):] not in snap:
+                    problems.append('round %d: %s without info' % (r, t))
+            contents = set()
+            for t in tops:
+                p = os.path.join(td, t)
+                if os.path.isdir(p):
+                    ids = [x for x in os.listdir(p)]
+                    if ids != ['id']:
+                        problems.append('round %d: merged directory %s: %r' % (r, t, ids))
+                    else:
+                        contents.add(open(os.path.join(p, 'id')).read())
+                else:
+                    contents.add(open(p).read())
+            if len(contents) != ok:
+                problems.append('round %d: %d distinct payloads for %d successes'
+                                % (r, len(contents), ok))
+            for i, c in enumerate(codes):
+                still = os.path.lexists(sb.path('w%d' % i, 'same'))
+                if (c == 0) == still:
+                    problems.append('round %d: process %d exit %d, source still there=%s'
+                                    % (r, i, c, still))
+    return {'confirmed': bool(problems), 'problems': problems[:12]}
+
+
+def put_volumes_battery(repo):
+    """C07 natively: real tmpfs mounts in a private mount namespace: a file on
+    a second volume goes to that volume's .Trash-$uid (or .Trash/$uid when
+    secure), never across devices; created dirs are 0700"""
+    import subprocess, textwrap, json
+    script = textwrap.dedent(r'''
+        set -e
+        R=/tmp/pyvc-c07; mkdir -p $R && mount -t tmpfs none $R
+        mkdir -p $R/home $R/vol1 $R/vol2 && mount -t tmpfs none $R/vol1 && mount -t tmpfs none $R/vol2
+        export HOME=$R/home XDG_DATA_HOME=$R/home/.local/share
+        PY="%(py)s"; PUT="%(repo)s/trash-put"
+        uid=$(id -u)
+        set +e
+        # 1. file on vol1, no .Trash: -> vol1/.Trash-uid
+        echo a > $R/vol1/a; $PY $PUT $R/vol1/a; echo "case1 $? $(ls -d $R/vol1/.Trash-$uid/files/a 2>/dev/null)"
+        stat -c 'mode1 %%a' $R/vol1/.Trash-$uid $R/vol1/.Trash-$uid/files $R/vol1/.Trash-$uid/info
+        # 2. sticky .Trash on vol2 -> vol2/.Trash/uid
+        mkdir $R/vol2/.Trash; chmod 1777 $R/vol2/.Trash
+        echo b > $R/vol2/b; $PY $PUT $R/vol2/b; echo "case2 $? $(ls -d $R/vol2/.Trash/$uid/files/b 2>/dev/null)"
+        # 3. non-sticky .Trash -> falls through to .Trash-uid
+        chmod 0777 $R/vol2/.Trash
+        echo c > $R/vol2/c; $PY $PUT $R/vol2/c; echo "case3 $? $(ls -d $R/vol2/.Trash-$uid/files/c 2>/dev/null) $(ls -d $R/vol2/.Trash/$uid/files/c 2>/dev/null)"
+        # 4. file under home (same tmpfs as R) -> home trash
+        echo d > $R/home/d; $PY $PUT $R/home/d; echo "case4 $? $(ls -d $XDG_DATA_HOME/Trash/files/d 2>/dev/null)"
+        # 5. symlink in home pointing to vol1, with trailing slash: the link is trashed at home
+        mkdir $R/vol1/dir; ln -s $R/vol1/dir $R/home/lnk; $PY $PUT $R/home/lnk/; echo "case5 $? $(ls -d $XDG_DATA_HOME/Trash/files/lnk 2>/dev/null) $(ls -d $R/vol1/dir 2>/dev/null)"
+        # 6. empty XDG_DATA_HOME -> HOME/.local/share/Trash
+        echo e > $R/home/e; XDG_DATA_HOME= $PY $PUT $R/home/e; echo "case6 $? $(ls -d $R/home/.local/share/Trash/files/e 2>/dev/null)"
+        # 7. --trash-dir on another volume is refused (no cross-device copy)
+        echo f > $R/vol1/f; $PY $PUT --trash-dir $R/vol2/T $R/vol1/f; echo "case7 $? $(ls -d $R/vol1/f 2>/dev/null) $(ls $R/vol2/T/files 2>/dev/null | wc -l)"
+    ''') % {'py': '/venv/bin/python', 'repo': repo}
+    try:
+        p = subprocess.run(['unshare', '-m', 'bash', '-c', script],
+                           capture_output=True, text=True, timeout=120,
+                           env=dict(os.environ, PYTHONPATH=repo))
+    except Exception as e:
+        return {'confirmed': False, 'note': 'unshare failed: %r' % (e,)}
+    out = p.stdout
+    problems = []
+    lines = dict((l.split()[0], l) for l in out.split('\n') if l.startswith('case'))
+    R = '/tmp/pyvc-c07'
+
+    def expect(case, ok):
+        if case not in lines:
+            problems.append('%s: no output (%s)' % (case, p.stderr[-200:]))
+        elif not ok(lines[case].split()[1:]):
+            problems.append('%s unexpected: %s' % (case, lines[case]))
+    expect('case1', lambda f: f[0] == '0' and len(f) == 2 and '.Trash-' in f[1])
+    expect('case2', lambda f: f[0] == '0' and len(f) == 2 and '/.Trash/' in f[1])
+    expect('case3', lambda f: f[0] == '0' and len(f) == 2 and '.Trash-' in f[1])
+    expect('case4', lambda f: f[0] == '0' and len(f) == 2 and '/home/' in f[1])
+    expect('case5', lambda f: f[0] == '0' and len(f) == 3)
+    expect('case6', lambda f: f[0] == '0' and len(f) == 2)
+    expect('case7', lambda f: f[0] != '0' and len(f) == 3 and f[-1] == '0')
+    modes = [l for l in out.split('\n') if l.startswith('mode1')]
+    if len(modes) != 3 or any(l.split()[1] != '700' for l in modes):
+        problems.append('created trash dirs are not 0700: %r' % modes)
+    return {'confirmed': bool(problems), 'problems': problems[:10],
+            'stdout': out[-1500:], 'stderr': p.stderr[-500:]}
